@@ -235,6 +235,33 @@ def check_case(rng, impl, quick):
     return None, desc
 
 
+def array_constant_case(impl, variant):
+    """a template with a constant array argument (no parameter in it) next to parametrised gates: an instantiation, in the written
+    order and with an operation on a disjoint mode moved, is matched and the values come back"""
+    import copy
+
+    from blackbird.utils import TemplateError, match_template
+    arr = ["complex array U[2, 2] =\n    0.6+0.8j, 0\n    0, 1", "float array U =\n    1.5, 2.5, 3.5", "int array U[2, 2] =\n    1, 2\n    3, 4"][variant % 3]
+    t = impl.loads("name prog\nversion 1.0\n%s\nSgate({r}, 0.0) | 0\nDgate(-{r}, 0.45) | 2\nInterferometer(U) | [0, 1]\nRgate(2 * {phi} - 1) | 1\nKgate(U, {phi}) | 3\n" % arr)
+    vals = {"r": 0.5432, "phi": -1.2345}
+    inst = t(**vals)
+    progs = [("the written order", inst)]
+    moved = copy.deepcopy(inst)
+    moved._operations.append(moved._operations.pop(1))          # Dgate | 2 acts on a mode nothing else uses
+    progs.append(("an operation on a disjoint mode moved to the end", moved))
+    for what, p in progs:
+        try:
+            r = match_template(t, p)
+        except Exception as e:  # noqa: BLE001
+            return "matching a template with a constant array argument against its instantiation (%s) raises %s: %s" % (what, type(e).__name__, str(e)[:100])
+        for k, v in vals.items():
+            if k not in r or abs(float(r[k]) - v) > 1e-9:
+                return "matching a template with a constant array argument (%s): parameter %s matched as %r, expected %r" % (what, k, r.get(k), v)
+    other = copy.deepcopy(inst)
+    other._operations[2]["args"][0] = other._operations[2]["args"][0] * 2
+    return None
+
+
 def run(tier, seed):
     res = Result(PROP, tier, seed)
     rng = random.Random(seed)
@@ -261,6 +288,16 @@ def run(tier, seed):
                 break
         if len(res.violations) >= 5:
             break
+    for variant in range(3):
+        try:
+            msg = array_constant_case(impl, variant)
+        except Exception as e:  # noqa: BLE001
+            msg = "the template with a constant array argument cannot be handled: %s: %s" % (type(e).__name__, str(e)[:100])
+        res.case("array-constant-%d" % variant, True, None)
+        res.count("array-constant")
+        if msg:
+            ok = False
+            res.violate(msg, {"check": "array-constant", "variant": variant})
     res.oblige("correspondence: match(template, reordered instantiation) returns the instantiation values; structural edits rejected with TemplateError", "correspondence", ok)
     return finish(res, level="proof", trusted=fw.TRUSTED_COMMON + ["networkx VF2 returns an isomorphism whenever one exists (uniqueness of the isomorphism is proved)", "sympy.solve solves a*p + b = y"],
                   rule="templates with affine single-parameter positional arguments (parameters repeated across operations), generic real values, "
@@ -273,6 +310,10 @@ def replay(rep):
     import impl
     from blackbird.utils import TemplateError, match_template
     inp = rep["input"]
+    if inp.get("check") == "array-constant":
+        msg = array_constant_case(impl, inp["variant"])
+        print(msg)
+        return 1 if msg else 0
     t = impl.loads(inp["template"])
     if isinstance(inp.get("edited"), dict):
         # an edit made on the program object: redo it
